@@ -417,6 +417,12 @@ def judge(case, obs):
             v("C12", "stale_temperatures", f"{method}: the exchanger returned by the design object's find_design() reports max/min EFT {dl['hp_max']:.6f}/{dl['hp_min']:.6f} "
               f"at {dl['H']:.4f} m; simulating its field at that height gives {mx_:.6f}/{mn_:.6f}", observed=[dl["hp_max"], dl["hp_min"]], expected=[mx_, mn_],
               clamped="design-level")
+        # ... and if it was sized to a height inside the window, that height is a root of ITS field's excess (C05)
+        if KIND[method] == "zd" and HMIN < dl["H"] < HMAX:
+            e_dl = world.excess(dl["coords"], dl["H"])
+            if abs(e_dl) > TOL:
+                v("C05", "height_not_a_root", f"{method}: the exchanger returned by the design object's find_design() has {len(dl['coords'])} boreholes at {dl['H']:.6f} m (inside the window), "
+                  f"where its excess is {e_dl:.6g} K", observed=e_dl, expected="|excess| <= 1e-3", where="design-level")
     if obs["ghe_nbh"] != nbh:
         v("C12", "nbh_mismatch", f"{method}: ghe.nbh={obs['ghe_nbh']} but {nbh} coordinates")
     if obs.get("selected_coordinates_len") is not None and obs["selected_coordinates_len"] != nbh:
